@@ -5,7 +5,9 @@ package main
 // (nothing is written to /repo, nothing is executed):
 //   - the mutants of /verif/selftest/*.json for the property (one instance of a rule broken
 //     each, or a behaviour-preserving rewrite marked "benign"), and
-//   - the independently seeded, confirmed property-breaking changes of /verif/seeded/<id>-m<k>.
+//   - the independently seeded, confirmed property-breaking changes of /verif/seeded/<id>-m<k>, and
+//   - the independently produced behaviour-preserving refactorings of /verif/benign/<id>-b<k>,
+//     which must NOT be reported.
 // The battery measures whether the checker is still sensitive on TODAY's tree (a rule that
 // stopped matching passes vacuously forever). It never decides the property: a variant that
 // is no longer reported is printed as SENSITIVITY-LOSS and recorded in the evidence, the exit
@@ -79,6 +81,15 @@ func loadVariants(verif, prop string) []mutant {
 		p := filepath.Join(d, "patch.diff")
 		if _, err := os.Stat(p); err == nil {
 			ms = append(ms, mutant{ID: "seeded/" + filepath.Base(d), Property: prop, patch: p})
+		}
+	}
+	// behaviour-preserving refactorings delivered by independent sub-agents: must stay silent
+	bdirs, _ := filepath.Glob(filepath.Join(verif, "benign", prop+"-b*"))
+	sort.Strings(bdirs)
+	for _, d := range bdirs {
+		p := filepath.Join(d, "patch.diff")
+		if _, err := os.Stat(p); err == nil {
+			ms = append(ms, mutant{ID: "benign/" + filepath.Base(d), Property: prop, patch: p, Benign: true})
 		}
 	}
 	return ms
@@ -159,6 +170,9 @@ func runVariant(m mutant, repo, verif string) variantResult {
 	r := variantResult{ID: m.ID, Kind: "selftest"}
 	if m.patch != "" {
 		r.Kind = "seeded"
+		if m.Benign {
+			r.Kind = "refactoring"
+		}
 	}
 	tmp, err := os.MkdirTemp("", "gbvariant_")
 	if err != nil {
